@@ -6,7 +6,7 @@ git -C /repo apply "$PATCH" || { echo "PATCH DOES NOT APPLY"; exit 2; }
 if [ "$TIER" = thorough ]; then /verif/check "$P" --tier thorough > /tmp/try_seed.log 2>&1; else /verif/check "$P" > /tmp/try_seed.log 2>&1; fi
 rc=$?
 git -C /repo checkout -- . ; git -C /repo clean -fdq
-grep -E "VIOLATION|KNOWN-FINDING|PASS|BROKEN" /tmp/try_seed.log | cut -c1-400 | head -8
+grep -E "VIOLATION|KNOWN-FINDING|PASS|BROKEN" /tmp/try_seed.log | grep -v KNOWN-FINDING | cut -c1-400 | head -8
 echo "rc=$rc"
 find /verif/replays -type f -newer "$PATCH" -name '*' | head -0
 # the evidence files describe runs on the unchanged tree only: put the committed ones back
